@@ -672,7 +672,10 @@ class _PairsClassifierMixin(BaseMetricLearner, ClassifierMixin):
       cum_tn_inverted = stable_cumsum(y_ordered[::-1] == -1)
       cum_tn = np.concatenate([[0.], cum_tn_inverted])[::-1]
       cum_accuracy = (cum_tp + cum_tn) / n_samples
-      imax = np.argmax(cum_accuracy)
+      # a cut-off cannot separate pairs with equal scores: among tied scores
+      # only the position after the last of them is a realisable threshold
+      realisable = np.append(scores_sorted[:-1] != scores_sorted[1:], True)
+      imax = np.argmax(np.where(realisable, cum_accuracy, -np.inf))
       # we set the threshold to the lowest accepted score
       # note: we are working with negative distances but we want the threshold
       # to be with respect to the actual distances so we take minus sign
@@ -706,9 +709,10 @@ class _PairsClassifierMixin(BaseMetricLearner, ClassifierMixin):
       # (see a more detailed discussion in test_calibrate_threshold_extreme)
       return self
 
+    # drop_intermediate=False: every realisable threshold must be a candidate
     fpr, tpr, thresholds = roc_curve(y_valid,
                                      self.decision_function(pairs_valid),
-                                     pos_label=1)
+                                     pos_label=1, drop_intermediate=False)
     # here the thresholds are decreasing
     fpr, tpr, thresholds = fpr, tpr, thresholds
 
